@@ -77,8 +77,9 @@ class Analyzer(cfg.GraphVisitor):
           continue
         fn_scope = anno.getanno(fn_ast_node, annos.NodeAnno.ARGS_AND_BODY_SCOPE)
         # Any closure of a reaching function definition is conservatively
-        # considered live.
-        live_in |= (fn_scope.read - fn_scope.bound)
+        # considered live. That includes the names it declares nonlocal, which
+        # activity analysis tracks as bound in the function's scope.
+        live_in |= (fn_scope.read - (fn_scope.bound - fn_scope.nonlocals))
 
     else:
       assert self.can_ignore(node), (node.ast_node, node)
